@@ -34,7 +34,7 @@ Definition pnode : P wnode :=
   i <- pint ;; v <- pint ;; cs <- pint ;; la <- pint ;; lo <- pint ;; ret (mkNode i v cs la lo).
 Definition pmember : P member :=
   ty <- pint ;; rf <- pint ;; ro <- pint ;; v <- pint ;; cs <- pint ;; la <- pint ;; lo <- pint ;;
-  o <- pint ;; ret (mkMember ty rf ro v cs la lo o).
+  o <- pint ;; nd <- pint ;; ret (mkMember ty rf ro v cs la lo o nd).
 Definition ppoint : P point := ppair pint pint.
 
 Definition update_eqb (a b : update) : bool :=
@@ -45,7 +45,8 @@ Definition node_eqb (a b : wnode) : bool :=
   && (n_lon a =? n_lon b).
 Definition member_eqb (a b : member) : bool :=
   (m_type a =? m_type b) && (m_ref a =? m_ref b) && (m_role a =? m_role b) && (m_ver a =? m_ver b)
-  && (m_cs a =? m_cs b) && (m_lat a =? m_lat b) && (m_lon a =? m_lon b) && (m_orient a =? m_orient b).
+  && (m_cs a =? m_cs b) && (m_lat a =? m_lat b) && (m_lon a =? m_lon b) && (m_orient a =? m_orient b)
+  && (m_nodes a =? m_nodes b).
 Definition point_eqb (a b : point) : bool := (fst a =? fst b) && (snd a =? snd b).
 
 (* an observation of ApplyUpdatesUpTo: status, error index, children and Updates afterwards *)
